@@ -21,9 +21,11 @@ pub fn fix_width(n: &mut Node) {
 
 /// The array behind an optional tag (e.g. tag 258 sets).
 pub fn inner_array_mut(n: &mut Node) -> Option<&mut Node> {
+    if matches!(n.kind, Kind::Array(_, _)) {
+        return Some(n);
+    }
     match &mut n.kind {
         Kind::Tag(_, _, inner) => inner_array_mut(inner),
-        Kind::Array(_, _) => Some(n),
         _ => None,
     }
 }
